@@ -10,6 +10,7 @@ from . import tlc
 
 
 RUN_ENV = None
+RUN_PREFIX = None      # e.g. ['valgrind', '-q', ...]: run the drivers under an observer
 
 
 class DriverError(Exception):
@@ -17,7 +18,7 @@ class DriverError(Exception):
 
 
 def run_driver(exe, args, out_prefix, timeout=3600, env=None):
-    cmd = [exe] + list(args) + [out_prefix]
+    cmd = list(RUN_PREFIX or []) + [exe] + list(args) + [out_prefix]
     try:
         p = subprocess.run(cmd, stdout=subprocess.PIPE, stderr=subprocess.PIPE, universal_newlines=True,
                            timeout=timeout, env=env or RUN_ENV)
